@@ -592,19 +592,32 @@ def native_validate(pu, work, tier, seed):
 
 def replay_counterexample(pu, h, label, failure, work, tier, seed):
     b = _bloch()
-    cmd = ['python3', os.path.join(_nat.ROOT, 'native', 'arith_oracle.py'), b, 'sweep', str(seed), '40']
-    rc, out, dt = _nat.run(cmd, timeout=900)
-    fails = [l for l in out.split('\n') if l.startswith('FAIL ')]
-    same = [l for l in fails if label and ('label=' + label + ' ') in l]
-    region = h['fn'].replace('eval_', 'eval.')
-    pick = same or [l for l in fails if ('label=' + region + '.') in l]
-    if label and 'no_trap' in (failure.get('desc') or ''):
-        pick = [l for l in fails if 'signal' in l] or pick
-    if pick:
-        m = re.search(r'label=(\S+)', pick[0])
-        return dict(failing_input_found=True, failing_input=pick[0], native_failures=fails[:5], oracle_label=m.group(1), signature=re.sub(r' detail=.*', '', pick[0])[:160],
-                    reproduce_args=cmd[3:], reproduce='bin/check <property> --replay <this file>', replay_inputs_tried=[' '.join(cmd[3:])], matched_same_obligation=bool(same))
-    return dict(failing_input_found=False, replay_inputs_tried=[' '.join(cmd[3:])], signature='')
+    prof = pu['low']['profile']
+    vals, first = _nat.trace_values(failure.get('trace', ''), failure)
+    cmds = []
+    tagname = dict((str(i), t) for i, t in enumerate(prof.tagenum))
+    tl, tr, opid = tagname.get(vals.get('g_l.type', '')), tagname.get(vals.get('g_r.type', '')), vals.get('bin_op') or vals.get('a0')
+    tmap = {'Int': 'int', 'Long': 'long', 'Float': 'float'}
+    if tl in tmap and tr in tmap and opid and opid.lstrip('-').isdigit() and 0 <= int(opid) < len(prof.strids):
+        op = prof.strids[int(opid)].strip('"')
+        if op in ('+', '-', '*', '/', '%'):
+            cmds.append(['python3', os.path.join(_nat.ROOT, 'native', 'arith_oracle.py'), b, 'pair', tmap[tl], tmap[tr], op])
+    cmds.append(['python3', os.path.join(_nat.ROOT, 'native', 'arith_oracle.py'), b, 'sweep', str(seed), '40'])
+    tried = []
+    for cmd in cmds:
+        rc, out, dt = _nat.run(cmd, timeout=900)
+        tried.append(' '.join(cmd[3:]))
+        fails = [l for l in out.split('\n') if l.startswith('FAIL ')]
+        same = [l for l in fails if label and ('label=' + label + ' ') in l]
+        region = h['fn'].replace('eval_', 'eval.')
+        pick = same or [l for l in fails if ('label=' + region + '.') in l]
+        if label and 'no_trap' in (failure.get('desc') or ''):
+            pick = [l for l in fails if 'signal' in l] or pick
+        if pick:
+            m = re.search(r'label=(\S+)', pick[0])
+            return dict(failing_input_found=True, failing_input=pick[0], native_failures=fails[:5], oracle_label=m.group(1), signature=re.sub(r' detail=.*', '', pick[0])[:160],
+                        reproduce_args=cmd[3:], reproduce='bin/check <property> --replay <this file>', replay_inputs_tried=tried, matched_same_obligation=bool(same) or cmd[3] == 'pair')
+    return dict(failing_input_found=False, replay_inputs_tried=tried, signature='')
 
 
 def run_reproduce(rec, work):
